@@ -72,6 +72,9 @@ def run(chk, replay=None):
         for nd in cfg["nodes"].values(): nd["delays"] = [min(d, 2 * nd["period"]) for d in nd["delays"]]
         cfg["steps"] = rnd.choice([6, 8, 12])
         jobs.append(dict(id=f"live:{i}", cfg=cfg, history=[["reset"] + ["step"] * cfg["steps"] + ["stop"]]))
+        # the user thread is descheduled inside reset() between starting one node and the next: nodes already started publish to connections whose
+        # receiver is reset but not yet started - reset() and the steps must still return (and, C02, give the same episode)
+        if i % 3 == 1: jobs[-1]["perturb"] = dict(kind="points", points=["start:node"], ms=60)
     res = al.run_jobs(jobs, nproc=10, per_job_timeout=25)
     model_cases = []; model_meta = []
     for j in jobs:
